@@ -23,6 +23,10 @@ def is_io_plumbing(tok):
     return d.startswith("discr(call(") and not d.startswith("discr(call(deserialization::") and not d.startswith("discr(call(serialization::")
 
 
+def is_comparison(desc):
+    return any(op in desc for op in (" Eq ", " Ne ", " Gt ", " Lt ", " Ge ", " Le ")) or desc.startswith("discr(")
+
+
 def canon_ident(x):
     """strip reference / dereference / load wrappers:  &*load(value) -> value"""
     prev = None
@@ -163,6 +167,8 @@ def marker_dispatch(env, rep, rule):
         target = None
         for t in sig:
             if t[0] == "when":
+                if is_comparison(t[1]) and marker is not None:
+                    continue
                 marker = t
             elif t[0] == "call":
                 target = ("call", t[1])
@@ -241,7 +247,7 @@ def check_decoder(env, rep, rule, spec):
         for x in val.split(","):
             if x.lstrip("-").isdigit():
                 k = int(x)
-                if " Eq " in desc or " Ne " in desc:
+                if is_comparison(desc):
                     continue
                 by_marker.setdefault(k, set()).update(targets)
     want = spec["decodings"]
